@@ -244,6 +244,19 @@ Theorem c07_gated_run_is_never_ended :
 Proof. exact gated_run_never_ended. Qed.
 Print Assumptions c07_gated_run_is_never_ended.
 
+(* … store-wide: with a non-empty gate ONE side write that fails in every run (a damaged directory, a full disk) leaves EVERY
+   run announced on any thread of the store open - every set of activities, every schedule: each message still gets its
+   run_spawned, no run ever gets its run_ended (the store then behaves exactly as if every run_ended append failed) *)
+Theorem c07_one_failing_side_write_leaves_every_run_open :
+  forall (gate : list side_write), gate_unconditional gate = false ->
+  exists w, In w gate /\
+    forall (aok : ck -> bool) (acts : list act) (l : list ev) (g : cfg) (mid sid : N) (inp : input),
+      WfActs acts -> Interleave (map (act_events_x gate (fun _ => side_write_eqb w) aok) acts) l ->
+      In (APost g mid sid inp) acts -> aok (CMessage mid) = true -> aok (CRunSpawned sid mid) = true ->
+      count_ck (is_spawn_of mid) l = 1%nat /\ count_ck (is_end_of sid) l = 0%nat.
+Proof. exact gated_store_never_ends. Qed.
+Print Assumptions c07_one_failing_side_write_leaves_every_run_open.
+
 (* REFUTED for a gate that holds the snapshot (`if let (Some(link), Ok(_)) = (continuity_run, snapshot)`): a run whose own
    tool replaces <data>/snapshots by a regular file, then a plain prompt on the same thread - write_snapshot fails in both
    runs; both are announced, both end their session, NEITHER gets its run_ended (under AppendOk).  Replayed on the real
